@@ -4,7 +4,7 @@ PROP = {
     "bin": "c07",
     "coq_targets": ["theories/Exec/C07Check"],
     "n": {"quick": 480, "thorough": 12000},
-    "theorems": ["step_refines", "guards_det_suffices", "steps_refine", "step_frame", "step_deterministic", "no_guessed_value", "stuck_situations", "example_hypotheses"],
+    "theorems": ["step_refines", "guards_det_suffices", "steps_refine", "step_frame", "step_deterministic", "no_guessed_value", "stuck_situations", "paged_exec_sim", "driver_is_byte_instance", "paged_step_refines", "paged_steps_refine", "paged_fresh_related", "example_hypotheses", "example_paged_run"],
     "rule": "one program per (seed,index): 1-2 random IL functions (ilgen::gen_function: 1-6 blocks, loops, empty blocks, 2-/3-way guarded fans, "
             "8/16/32/64-bit loads and stores, mixed-width scalars, big/little-endian paged memory, indirect branches to existing instruction addresses), "
             "random initial scalars and memory, executor::Driver::step run for up to 200 steps with the complete per-step change set recorded; "
@@ -12,17 +12,17 @@ PROP = {
             "unguarded / single-false guards, stores/loads at and over the top of the address space, >64-bit addresses, ill-typed states, non-byte widths, re-lifting); "
             "non-trivial = at least 3 executed steps including a load, store, fan or branch, or a run ending in one of the property's error kinds; "
             "distinct by hash of the canonical case text",
-    "trusted_base": [KERNEL, HARNESS_TB, "paged memory as a byte map (property C08)", "indirect-branch re-lifting (translator oracle)"],
-    "assumptions": ["paged memory behaves as a byte map (C08)", "program well formed: cfg_inv, wf_expr/wf_op sort rules, wf_names (one width and SSA version per name), "
+    "trusted_base": [KERNEL, HARNESS_TB, "C08's proofs about Mem/Paged.v (composed formally: paged_step(s)_refine)", "C18's IL/LocProofs.v (closure of valid locations)", "indirect-branch re-lifting (translator oracle)"],
+    "assumptions": ["memory operands narrower than 2^63 bits (composition with C08)", "program well formed: cfg_inv, wf_expr/wf_op sort rules, wf_names (one width and SSA version per name), "
                     "guards on every edge of a fan", "widths < 2^64", "no load/store range wrapping past 2^64 (top_at; property silent on wrapped ranges)",
-                    "locations stay applicable along the run (closure of forward/from_address: C18)"],
+                    "the run starts at a valid location (C18 valid_loc)"],
     "partial": ["re-lifting at indirect-branch targets outside the program: translator oracle, nothing claimed after it",
                 "load/store whose range wraps past 2^64: excluded (property silent; store => Err(Custom), load => None or overflow panic)",
-                "steps_refine assumes the visited locations apply (run_ok); closure under forward/from_address not proved here"],
+                "re-lifting oracle assumed not to distinguish a paged memory from its byte view (lift_compat)"],
     "level_text": "Unbounded Coq theorems that the Gallina transcription of State::execute / Driver::step refines the executable IL semantics Exec/Sem.v "
-                  "(one step, all step counts, frame, determinism, every error situation reported as Err), plus an in-kernel differential tie of the "
+                  "(one step, all step counts, frame, determinism, every error situation reported as Err), composed with C08 into one statement (the driver over the real paged-memory model refines Sem), plus an in-kernel differential tie of the "
                   "transcription to executor::Driver::step on generated programs (complete per-step change sets) and an oracle check of every observed "
                   "transition against Sem.sem_step.",
-    "level_note": "Trusted: Coq kernel + vm_compute; the harness/pretty-printer; paged memory as a byte map (C08); the re-lifting translator; "
+    "level_note": "Trusted: Coq kernel + vm_compute; the harness/pretty-printer; the re-lifting translator; "
                   "the model is hand-written and tied to the code differentially, not by translation.",
 }
